@@ -207,7 +207,7 @@ pub fn drive_rt<T: Reg + Encode + Decode>(ctx: &mut Ctx, elem_size: Option<usize
 	let kind = T::descr().get("k").and_then(|k| k.as_str()).map(|x| x.to_string()).unwrap_or_default();
 	if elem_size.is_none() && (kind == "str" || kind == "bits") {
 		let w = T::descr().get("w").and_then(|w| w.as_u64()).unwrap_or(1) as usize;
-		let lens: Vec<usize> = if kind == "str" { vec![16383, 16384, 16385, 32769] } else { vec![16384 * 8 - 1, 16384 * 8, 16384 * 8 + 8 * w + 1] };
+		let lens: Vec<usize> = if kind == "str" { vec![16383, 16390, 32790, 16384, 16385] } else { vec![16384 * 8 - 1, 16384 * 8, 16384 * 8 + 8 * w + 1] };
 		let take = if ctx.tier == "thorough" { lens.len() } else { 2 };
 		for l in lens.into_iter().skip(1).take(take) {
 			if let Some(v) = T::gen_len(&mut g, l) {
